@@ -46,6 +46,11 @@ func c05(p *core.Prog, r *core.Report) {
 	c05Blocking(p, r)
 	c05Failure(p, r)
 	c05Budget(p, r)
+	// exactly one outcome: a retried call reports nothing decoded by a failed attempt (shared with C18-R4)
+	r.Rule("C05-R5", "E6 provenance", 1, "a retried call's outcome carries nothing of a failed attempt (shared with C18)")
+	r.Alias("C18-R4", "C05-R5")
+	c18RetryState(p, r)
+	r.Alias("C18-R4", "")
 }
 
 // c05Blocking: R1 (shared with C14 as the caller-side wait rule).
@@ -169,6 +174,21 @@ func c05Blocking(p *core.Prog, r *core.Report) {
 		var dl ssa.Instruction
 		for _, c := range core.CallsIn(f, "setInitDeadline") {
 			dl = c
+		}
+		{
+			var def ssa.Instruction
+			for _, a := range f.AnonFuncs {
+				if len(core.CallsIn(a, "Channel.initError")) == 1 {
+					core.EachInstr(f, func(i ssa.Instruction) {
+						if d, ok := i.(*ssa.Defer); ok {
+							if mc, ok := d.Call.Value.(*ssa.MakeClosure); ok && mc.Fn == ssa.Value(a) {
+								def = i
+							}
+						}
+					})
+				}
+			}
+			handshakeDeferOrder(p, r, f, def, "C05-R1")
 		}
 		ok := dl != nil
 		if ok {
@@ -349,6 +369,11 @@ func c05Failure(p *core.Prog, r *core.Report) {
 		}
 		r.Check(ok, "C05-R2", fname(f), "every copied exchange is notified", p.Pos(f.Pos()), "Notify inside the loop over the exchanges", "not every exchange is notified of the connection failure")
 	}
+	exchangeWaitsHaveLatch(p, r, "C05-R2")
+}
+
+// exchangeWaitsHaveLatch (shared by C05 and C04): a wait on an exchange is released when the exchange is shut down or its connection fails.
+func exchangeWaitsHaveLatch(p *core.Prog, r *core.Report, rule string) {
 	// every blocking select in mex.go / reqres.go that waits for the peer has the error-latch arm
 	for _, n := range [][2]string{{"messageExchange", "recvPeerFrame"}, {"messageExchange", "forwardPeerFrame"}, {"reqResWriter", "flushFragment"}} {
 		f := mustFunc(p, r, "", n[0], n[1])
@@ -368,7 +393,7 @@ func c05Failure(p *core.Prog, r *core.Report) {
 					has = true // errNotifier.c
 				}
 			}
-			r.Check(has, "C05-R2", fname(f), "blocking select has the exchange error-latch arm", p.Pos(i.Pos()), "wakes up when the connection fails", "wait does not observe the exchange's error latch: a connection failure leaves the caller blocked until its deadline")
+			r.Check(has, rule, fname(f), "blocking select has the exchange error-latch arm", p.Pos(i.Pos()), "wakes up when the connection fails", "wait does not observe the exchange's error latch: a connection failure leaves the caller blocked until its deadline")
 		})
 		if cnt == 0 {
 			r.Errorf("%s: no blocking select found", fname(f))
